@@ -15,6 +15,18 @@ CLAIMS = {
    note='trusted: Coq kernel+VM, extraction (ExtrOcamlBasic), OCaml driver, the harness; file objects modelled as byte lists; '
         'for < 3 copies the function is exercised through real files (with in-memory handles it raises NameError: not the CLI path)',
    technique='Coq proof (induction over read rounds, refinement to column-vote spec) + differential correspondence via extraction'),
+ 'C20': dict(
+   text='Proof (Coq): for every chunk size >= 1 and start offsets, the chunked loop of diff_bytes_files returns (#differing '
+        'positions over the common length + |length difference|, longer length); the difference is 0 iff the files are equal; '
+        'diff_count_files is list equality; the tree metrics are the sums over the reference tree (missing file = wholly '
+        'different, extra files ignored); the exit rule is 0 iff every reference file has an identical counterpart (a missing '
+        'EMPTY file adds 0 bytes - stated in the theorem). Seven theorems, closed under the global context. Tied to /repo by '
+        'running the extracted model and the real functions on real files (exhaustive small space + random + trees + '
+        'restest main() on stub configs).',
+   design='DESIGN.md section 4, C20',
+   note='trusted: Coq kernel+VM, extraction, OCaml driver, harness; the float step diff/total*100 == 0 <=> diff == 0 (total > 0) '
+        'is not proved in Coq; config parsing / command execution of restest are not modelled',
+   technique='Coq proof (induction over read rounds, refinement to Hamming+length spec) + differential correspondence via extraction'),
 }
 NOT_YET = 'not yet built in this round (planned per DESIGN.md section 7); no claim is made'
 
